@@ -473,7 +473,7 @@ def run(run, only=None):
         if only and p.name != only:
             continue
         run.run_part(p, audit=2)
-    run.assumptions += ['an exception or a None return counts as a reported failure', 'inputs for which the model documents a '
+    run.assumptions += ['while loading data an exception or a None return counts as a reported failure; an exception escaping a routine run() is a violation', 'inputs for which the model documents a '
                         'regularisation or a default (zero impedance, NaN parameter) may succeed if the result is truthful',
                         'Newton-Krylov residuals are judged at its own tolerance']
     rule = ('fault catalogue x Newton variant x routine sequence x entry point; one NaN injection at each of the first K linear '
